@@ -65,6 +65,9 @@ type C13Sc struct {
 	// Reconnect: the scripted server closes the connection right after its first ordinary reply; a second
 	// follow-up request then travels on a re-dialled connection and must carry the same adopted version
 	Reconnect bool `json:"reconnect,omitempty"`
+	// Cluster: the client connects through DialClusterContext (same negotiation, other entry point):
+	// 1 = with WithRetryTimeout, 2 = without
+	Cluster int `json:"cluster,omitempty"`
 }
 
 type C13Second struct {
@@ -91,6 +94,9 @@ func genC13(g *simrt.Tape, tier string) any {
 	}
 	sc.Reconnect = !sc.Real && g.Draw(3) == 0
 	sc.Order = g.Draw(120)
+	if g.Draw(4) == 0 {
+		sc.Cluster = 1 + g.Draw(2)
+	}
 	sc.Chunk = []int{simnet.ChunkMax, simnet.ChunkRandom, simnet.ChunkByte}[g.Draw(3)]
 	if g.Draw(3) == 0 {
 		sc.StallPM = 100
@@ -130,6 +136,14 @@ func c13Grid(tier string) []*C13Sc {
 		}
 		for e := 0; e < 5; e++ {
 			out = append(out, &C13Sc{Client: c, Server: 31, Beh: behConformant, Enforce: e, FollowUp: true, Reconnect: true})
+		}
+	}
+	// the cluster entry point: same negotiation, with and without a retry timeout
+	for c := 1; c < 32; c += 2 {
+		for srv := 0; srv < 32; srv += 3 {
+			for cl := 1; cl <= 2; cl++ {
+				out = append(out, &C13Sc{Client: c, Server: srv, Beh: behConformant, Enforce: -1, FollowUp: true, Clone: true, Cluster: cl})
+			}
 		}
 	}
 	// default-set clients, alone and followed by a second default-set client against a narrower server
@@ -293,7 +307,14 @@ func execC13(x *X, scAny any) {
 		if sc.Enforce >= 0 {
 			o = append(o, kmipclient.EnforceVersion(allVersions[sc.Enforce]))
 		}
-		cl, dialErr = kmipclient.DialContext(context.Background(), "sim", o...)
+		switch sc.Cluster {
+		case 1:
+			cl, dialErr = kmipclient.DialClusterContext(context.Background(), []string{"sim", "sim-b"}, append(o, kmipclient.WithRetryTimeout(time.Second))...)
+		case 2:
+			cl, dialErr = kmipclient.DialClusterContext(context.Background(), []string{"sim", "sim-b"}, o...)
+		default:
+			cl, dialErr = kmipclient.DialContext(context.Background(), "sim", o...)
+		}
 		dialled = true
 		if dialErr == nil && cl != nil {
 			if sc.Second != nil {
